@@ -228,4 +228,59 @@ theorem genString_scoped (d : Def) : (genString bindFresh d).scoped = true := by
       have := stringEnumParts_scoped (helperFree_locals tys.length) tys 0 (hasBinders_range _ _)
       simp [List.all_append, GExpr.scoped, this]
 
+/-! ### hygiene against the top-level functions of the package -/
+
+theorem helperFree_locals_tops (n : Nat) (tops : List String) (ht : HelperFree tops) :
+    HelperFree ((List.range' 0 n).map fieldBinder ++ ([Gen.Derive.selfParam] ++ tops)) := by
+  intro h hh hm
+  simp only [List.mem_append, List.mem_map, List.mem_singleton] at hm
+  rcases hm with ⟨j, _, e⟩ | e | e
+  · exact fieldBinder_not_helper j hh e
+  · exact (helpers_safe h hh).2 e
+  · exact ht h hh e
+
+theorem genJson_hygienic (d : Def) (tops : List String) (ht : HelperFree tops) :
+    (genJson bindFresh d).hygienic tops = true := by
+  cases d with
+  | struct n g fs =>
+    simp only [genJson, GMethod.hygienic, List.all_cons, List.all_nil, Bool.and_true]
+    by_cases he : fs.isEmpty = true
+    · simp [he, GExpr.scoped]
+    · simp only [he, Bool.false_eq_true, if_false, binders_fresh]
+      refine concatParts_scoped _ _ ?_
+      have := jsonStructParts_scoped (helperFree_locals_tops fs.length tops ht) fs 0 (hasBinders_range _ _)
+      simpa [List.all_append, GExpr.scoped] using this
+  | enum n g vs =>
+    simp only [genJson, GMethod.hygienic, List.all_map, List.all_eq_true]
+    intro ⟨vn, tys⟩ _
+    simp only [Function.comp, enumBinders_eq]
+    by_cases he : tys.isEmpty = true
+    · simp [he, GExpr.scoped]
+    · simp only [he, Bool.false_eq_true, if_false]
+      refine concatParts_scoped _ _ ?_
+      have := jsonEnumParts_scoped (helperFree_locals_tops tys.length tops ht) tys 0 (hasBinders_range _ _)
+      simpa [List.all_append, GExpr.scoped] using this
+
+theorem genString_hygienic (d : Def) (tops : List String) (ht : HelperFree tops) :
+    (genString bindFresh d).hygienic tops = true := by
+  cases d with
+  | struct n g fs =>
+    simp only [genString, GMethod.hygienic, List.all_cons, List.all_nil, Bool.and_true]
+    by_cases he : fs.isEmpty = true
+    · simp [he, GExpr.scoped]
+    · simp only [he, Bool.false_eq_true, if_false, binders_fresh]
+      refine concatParts_scoped _ _ ?_
+      have := stringStructParts_scoped (helperFree_locals_tops fs.length tops ht) fs 0 (hasBinders_range _ _)
+      simpa [List.all_append, GExpr.scoped] using this
+  | enum n g vs =>
+    simp only [genString, GMethod.hygienic, List.all_map, List.all_eq_true]
+    intro ⟨vn, tys⟩ _
+    simp only [Function.comp, enumBinders_eq]
+    by_cases he : tys.isEmpty = true
+    · simp [he, GExpr.scoped]
+    · simp only [he, Bool.false_eq_true, if_false]
+      refine concatParts_scoped _ _ ?_
+      have := stringEnumParts_scoped (helperFree_locals_tops tys.length tops ht) tys 0 (hasBinders_range _ _)
+      simpa [List.all_append, GExpr.scoped] using this
+
 end Goml.Derive
